@@ -314,11 +314,116 @@ def _scenarios(nex, n_sched):
     return fn
 
 
+# ---- subscription streams ---------------------------------------------------------------------
+
+
+def g_subscription(c, n_sched=3):
+    from checks import c07
+
+    sc = c07.g_scenario(c, n_sched)
+    sc["creation"] = c.choose(["ok", "ok", "ok", "ok", "ok", "awaited-error"])
+    stops = []
+    for _ in range(3):
+        k = c.pick(6)
+        if k == 0:
+            stops.append({"kind": "none"})
+        elif k <= 2:
+            stops.append({"kind": "aclose", "after": c.choose([0, 0, 1, 1, 2, 3])})
+        else:
+            stops.append({"kind": "abort", "after": c.choose([0, 0, 1, 2]), "reason": c.choose(["none", "exc", "str"])})
+    sc["sub_stops"] = stops
+    return sc
+
+
+def eval_subscription(sc):
+    """Stops on a subscription response stream: aclose after k responses (k = 0: before the first
+    pull), abort signal while a pull or the creation of the source is pending, none."""
+    from checks import c07
+
+    env = c02.Env(dict(sc, model=sc["model"]))
+    if not env.valid:
+        return [], 0, "generator-invalid", []
+    if R5.coerce_variables(env.m, sc["doc"]["vars"]["Op0"], sc["variables"]) is R5.INVALID:
+        return [], 0, "variables-rejected", []
+    vs, nt, n = [], [], 0
+    for stop in sc["sub_stops"]:
+        for schedule in sc["schedules"]:
+            case = dict(sc, sub_stops=[stop], schedules=[schedule])
+
+            def bad(rel, detail, feats=None):
+                f = {"relation": rel, "stop_kind": stop["kind"], "stop_after": stop.get("after"), "mode": "subscription"}
+                f.update(feats or {})
+                vs.append(Violation(("C06", "subscription-" + rel, stop["kind"]),
+                                    f"{detail}; stop {stop}; query {env.text!r} events {sc['events']} source "
+                                    f"{sc['source']} creation {sc['creation']} fail_at {sc['fail_at']} "
+                                    f"schedule {schedule}", case, f))
+
+            try:
+                out = c07.run_once(env, sc, schedule, stop=stop)
+            except Hang as h:
+                bad("hang", str(h))
+                continue
+            except Exception as e:  # noqa: BLE001
+                bad("harness-or-library-raises", f"{type(e).__name__}: {e}")
+                continue
+            n += 1
+            src = out["src"]
+            if out["prompt_violation"]:
+                bad("prompt-release", out["prompt_violation"])
+            if stop["kind"] == "abort" and out["stop_done"] and out["end"] == "error":
+                r = out["reason"]
+                got = out["raised"]
+                if isinstance(r, Exception) and got is not r and getattr(got, "__cause__", None) is not r \
+                        and getattr(got, "original_error", None) is not r:
+                    bad("abort-outcome", f"the pending pull raised {got!r}, not the abort reason {r!r}")
+            if stop["kind"] == "abort" and out["stop_done"] and out["end"] == "stop" and sc["fail_at"] is None \
+                    and (out["stop_state"] or {}).get("responses", 0) < len(sc["events"]):
+                bad("abort-outcome", "the stream ended normally although it was aborted before the source ended")
+            if out["tasks_left"]:
+                bad("task-leak", f"{out['tasks_left']} unfinished task(s)")
+            if out["inflight_end"]:
+                bad("resolver-leak", f"{out['inflight_end']} harness resolver(s) still in flight")
+            if out["unhandled"]:
+                bad("unhandled-loop-exception", f"{out['unhandled'][:2]}")
+            if sc["source"] in ("agen", "awaitable") and src["started"] and src["finalized"] != 1:
+                bad("source-not-closed", f"{src}")
+            if sc["source"] == "class" and src["started"] and src["finalized"] != 1:
+                bad("source-not-closed", f"class-based iterator with aclose(): {src}")
+            st = out["stop_state"] or {}
+            if out["stop_done"] and (st.get("gates") or st.get("source_open") or st.get("inflight")):
+                nt.append({"q": env.text[:200], "stop": stop, "state": st, "source": sc["source"],
+                           "trace": out["trace"][-6:]})
+    return vs, n, "ok", nt
+
+
+def _subscriptions(nex, n_sched):
+    def fn(ctx, shard, nshards):
+        def body(sc):
+            vs, n, status, nt = eval_subscription(sc)
+            ctx.count(n)
+            ctx.cls("sub-status:" + status)
+            for stop in sc["sub_stops"]:
+                ctx.cls("sub-stop:" + stop["kind"])
+            for x in nt:
+                ctx.nontriv(x)
+            if nt:
+                ctx.sample("subscription-stop:" + nt[0]["stop"]["kind"], nt[0])
+            ctx.check(vs)
+
+        given_run(ctx, from_bytes(lambda c: g_subscription(c, n_sched), 3072), body, max_examples=nex)
+
+    return fn
+
+
 def subchecks(tier):
     if tier == "quick":
-        return [Sub("scenarios", _scenarios(300, 3), shards=14)]
-    return [Sub("scenarios", _scenarios(16000, 8), shards=16)]
+        return [Sub("scenarios", _scenarios(300, 3), shards=12, weight=3),
+                Sub("subscriptions", _subscriptions(250, 3), shards=4, weight=1)]
+    return [Sub("scenarios", _scenarios(16000, 8), shards=16, weight=3),
+            Sub("subscriptions", _subscriptions(6000, 6), shards=16, weight=1)]
 
 
 def replay(case):
+    if "sub_stops" in case:
+        return eval_subscription(case)[0]
     return eval_scenario(case)[0]
